@@ -6,8 +6,8 @@
    Model/Literal.v (PRQL literal spellings -> values -> SQL text).
    Tables: Gen/GenLiteral.v, regenerated from /repo on every run (vplib/props/c08_gen.py). *)
 From Coq Require Import List NArith ZArith Bool.
-From PV Require Import Lib.ListX Model.Escape Model.SqlLex Model.SqlLexBq Model.Interval Model.Literal Model.FloatFmt Model.FloatRyu
-                       Proofs.EscapeProofs Proofs.SqlLexBqProofs Proofs.LiteralProofs Proofs.FloatFmtProofs Proofs.FloatRyuProofs Proofs.IntervalProofs Gen.GenLiteral.
+From PV Require Import Lib.ListX Model.Escape Model.SqlLex Model.SqlLexBq Model.Interval Model.Literal Model.FloatFmt Model.FloatRyu Model.FromText
+                       Proofs.EscapeProofs Proofs.SqlLexBqProofs Proofs.LiteralProofs Proofs.FloatFmtProofs Proofs.FloatRyuProofs Proofs.FloatRyuMinProofs Proofs.IntervalProofs Proofs.FromTextProofs Gen.GenLiteral.
 Import ListNotations.
 Local Open Scope N_scope.
 
@@ -366,10 +366,66 @@ Theorem float_rounding_nearest : forall m e mant q, m <> 0 -> round64 m e = Some
 Proof. exact round64_nearest. Qed.
 Print Assumptions float_rounding_nearest.
 
+(* MINIMALITY of the digits: p = lead_pos = the position of the float's leading decimal digit (float_lead_position below).
+   The search tries k = 1, 2, ... digits, i.e. the units 10^p, 10^(p-1), ...; when it answers with a decimal whose last
+   digit is at position x, then for every coarser unit it tried before (10^(p-k'+1) with x < p-k'+1) NO non-zero multiple
+   of that unit lies in the rounding interval: no decimal with fewer significant digits reads back as the float.
+   (By convexity of the interval around the float and the fact that the two candidates of each k bracket the float.) *)
+Theorem float_shortest_minimal : forall f D x, fst f <> 0 -> shortest f = Some (D, x) ->
+  let p := lead_pos (bin_rat (fst f) (snd f)) in
+  forall k', (1 <= k')%nat -> (x < p - Z.of_nat k' + 1)%Z ->
+  forall D', D' <> 0 -> in_interval f (dec_rat D' (p - Z.of_nat k' + 1)) = false.
+Proof. exact shortest_minimal. Qed.
+Print Assumptions float_shortest_minimal.
+
+(* lead_pos: for a value v = n/d of at least one, 10^p <= v < 10^(p+1) ... *)
+Theorem float_lead_position_ge1 : forall v, snd v <> 0 -> snd v <= fst v ->
+  let p := lead_pos v in (0 <= p)%Z /\ 10 ^ Z.to_N p * snd v <= fst v /\ fst v < 10 ^ (Z.to_N p + 1) * snd v.
+Proof. exact lead_pos_ge1. Qed.
+Print Assumptions float_lead_position_ge1.
+
+(* ... and for a value below one (not below 10^-400: every non-zero binary64 is above 10^-324): p = -J with 10^-J <= v < 10^-(J-1) *)
+Theorem float_lead_position_lt1 : forall v, snd v <> 0 -> fst v < snd v -> rle (1, 10 ^ 400) v = true ->
+  exists J, lead_pos v = (- Z.of_N J)%Z /\ 1 <= J /\ rle (1, 10 ^ J) v = true /\ rlt v (1, 10 ^ (J - 1)) = true.
+Proof. exact lead_pos_lt1. Qed.
+Print Assumptions float_lead_position_lt1.
+
 (* a negative float (folded negation): minus sign and number, two tokens *)
 Theorem float_negative_tokens : forall d m e, sql_lex d (45 :: emit_float m e) = [TPunct 45; TNumber (emit_float m e)].
 Proof. exact emit_float_neg_tokens. Qed.
 Print Assumptions float_negative_tokens.
+
+(* embedded data: std.from_text format:json (Model/FromText.v map_json_primitive = transforms.rs from_text::map_json_primitive).
+   FULL STATEMENT (false, finding C08-N2): every cell reaches translate_literal as the literal of its value. *)
+Theorem json_cell_value_refuted :
+  exists v, map_json_primitive v = RNull /\ v <> JNull /\ v = JInt 9223372036854775808.
+Proof. eexists. split; [|split; [|reflexivity]]; [reflexivity | discriminate]. Qed.
+Print Assumptions json_cell_value_refuted.
+
+(* PARTIAL: every cell but an integer in (i64::MAX, u64::MAX], an array or an object becomes the literal of its value *)
+Theorem json_cell_value_partial : forall v, json_cell_kept v = true ->
+  match v with
+  | JNull => map_json_primitive v = RNull
+  | JBool b => map_json_primitive v = RBool b
+  | JInt z => (map_json_primitive v = RInt z /\ (I64_MIN_Z <= z <= I64_MAX_Z)%Z) \/
+              (map_json_primitive v = RFloat /\ (z < I64_MIN_Z \/ U64_MAX_Z < z)%Z)
+  | JReal => map_json_primitive v = RFloat
+  | JString s => map_json_primitive v = RString s
+  | JArray | JObject => False
+  end.
+Proof. exact json_cell_literal. Qed.
+Print Assumptions json_cell_value_partial.
+
+(* a string cell and an i64 cell, end to end: document value -> literal -> SQL text -> value read by the database *)
+Theorem json_string_cell_end_to_end : forall d sq s,
+  exists t, emit_rlit sq (bs_escapes d) (map_json_primitive (JString s)) = Some t /\ sql_lex d t = [TString s].
+Proof. exact json_string_cell_roundtrip. Qed.
+Print Assumptions json_string_cell_end_to_end.
+
+Theorem json_int_cell_end_to_end : forall d sq bs z, (I64_MIN_Z <= z <= I64_MAX_Z)%Z ->
+  exists t, emit_rlit sq bs (map_json_primitive (JInt z)) = Some t /\ int_of_tokens (sql_lex d t) = Some z.
+Proof. exact json_int_cell_roundtrip. Qed.
+Print Assumptions json_int_cell_end_to_end.
 
 Theorem bool_roundtrip : forall d b, sql_lex d (emit_bool b) = [TWord (emit_bool b)].
 Proof. exact LiteralProofs.bool_roundtrip. Qed.
